@@ -54,7 +54,7 @@ var c16Names = []string{"n1.example", "n2.example", "n3.example"}
 func TestC16(t *testing.T) {
 	rec := ev.Get("C16")
 	rec.Rule("state machine: fresh Resolver (default cache) against the versioned fake DoH server, package clock replaced through the verif hook. Actions: resolve(one of 3 names), advance the clock (0, 1 s, to an entry's expiry -1/0/+1 s, 299/300/301 s), mutate the zone (new version stamped into every datum; per-record TTLs 0..600 in drawn order; shapes: service RRset with/without target, none, CNAME-only answer, NXDOMAIN), switch an upstream failure (SERVFAIL/REFUSED/HTTP 400) on or off for a (name,type). Reference cache model from the property: an answer is reusable while now < fetch time + min TTL over its answer records (300 s for an empty answer, 0 = not cacheable), failures are never cached. Oracle after every resolve: upstream queries sent == queries the model predicts (no more: served from cache within TTL; no fewer: never stale, failures not cached) and result == model result (every datum carries its zone version). distinct = action-kind sequence; non-trivial = a resolve after an advance >= 1 s")
-	rec.Mandatory("ttl0_first", "ttl0_last", "expiry_minus1", "expiry_exact", "expiry_plus1", "failure_then_recovery", "cname_only_answer", "cache_hit", "refetch_after_expiry", "zone_mutated")
+	rec.Mandatory("ttl0_first", "ttl0_last", "expiry_minus1", "expiry_exact", "expiry_plus1", "failure_then_recovery", "cname_only_answer", "cache_hit", "refetch_after_expiry", "zone_mutated", "clock_advances_during_resolve")
 	rapid.Check(t, func(t *rapid.T) {
 		z := dnsfx.NewZone()
 		// the clock is not aligned to whole seconds (expiry arithmetic must not round)
@@ -117,17 +117,24 @@ func TestC16(t *testing.T) {
 		populate()
 		var logMu sync.Mutex
 		var respLog []c16Resp
+		// time may pass while an upstream query is in flight: every query served advances
+		// the clock by step (0 in most resolves) before the response leaves the server
+		var step time.Duration
 		hook := func(q dnsfx.Query, rcode int, ans []dnsfx.AnsRec) {
 			logMu.Lock()
 			respLog = append(respLog, c16Resp{Key: dnsfx.Key(q.Name, q.Type), T: clock(), RCode: rcode, Ans: ans})
 			logMu.Unlock()
+			clockMu.Lock()
+			now = now.Add(step)
+			clockMu.Unlock()
 		}
 		cache := map[string]c16Entry{}
 		// modelLookup returns (records of the type, rcode, upstream?) and updates the model cache.
 		var predicted []string
+		var mnow time.Time // the model's clock within one resolve
 		modelLookup := func(name string, typ uint16) ([]dnsfx.ZRec, int) {
 			key := dnsfx.Key(name, typ)
-			if e, ok := cache[key]; ok && now.Before(e.Exp) {
+			if e, ok := cache[key]; ok && mnow.Before(e.Exp) {
 				var out []dnsfx.ZRec
 				for _, a := range e.Data {
 					out = append(out, a.Rec)
@@ -135,6 +142,7 @@ func TestC16(t *testing.T) {
 				return out, 0
 			}
 			predicted = append(predicted, key)
+			mnow = mnow.Add(step) // the answer arrives step later than the query left
 			if st, ok := z.HTTPErr[key]; ok {
 				delete(cache, key)
 				return nil, -st
@@ -152,7 +160,7 @@ func TestC16(t *testing.T) {
 			}
 			m, cacheable := minTTL(ans)
 			if cacheable {
-				cache[key] = c16Entry{Exp: now.Add(time.Duration(m) * time.Second), Data: data}
+				cache[key] = c16Entry{Exp: mnow.Add(time.Duration(m) * time.Second), Data: data}
 			} else {
 				delete(cache, key)
 			}
@@ -236,6 +244,14 @@ func TestC16(t *testing.T) {
 					name := c16Names[rapid.IntRange(0, 2).Draw(t, "name")]
 					ops = append(ops, "resolve:"+name)
 					predicted = nil
+					clockMu.Lock()
+					step = 0
+					if rapid.IntRange(0, 3).Draw(t, "time_passes_during_resolve") == 0 {
+						step = time.Duration(rapid.SampledFrom([]int{500, 1000, 2000, 5000, 30000, 61000, 300000}).Draw(t, "step_ms")) * time.Millisecond
+						cl = append(cl, "clock_advances_during_resolve")
+					}
+					mnow = now
+					clockMu.Unlock()
 					z.Lock()
 					want := modelResolve(name)
 					z.Unlock()
@@ -246,6 +262,10 @@ func TestC16(t *testing.T) {
 					var res ech.ResolveResult
 					rerr := guard(func() error { var e error; res, e = r.Resolve(ctx, name); return e })
 					cancel()
+					clockMu.Lock()
+					step = 0
+					now = mnow // equal already when the queries sent are the predicted ones
+					clockMu.Unlock()
 					logMu.Lock()
 					var sent []string
 					for _, e := range respLog[before:] {
